@@ -894,8 +894,10 @@ func c09Closing(mcap int, keys []string) [][]string {
 			c09Op("getmd", k, "any", "m0"), c09Op("getmd", k, "any", "m1"), c09Op("getmd", k, "any", "i0"))
 	}
 	// whatever handles the case kept open (operations on handles that do not exist are skipped)
-	ops = append(ops, c09Op("hread", "h0", "8"), c09Op("hsize", "h0"), c09Op("hreadat", "h0", "8", "0"),
-		c09Op("hreadat", "h1", "8", "0"), c09Op("hsize", "h1"), c09Op("hread", "h1", "8"))
+	// h0: a positional call first, then the rest of the stream; h1: the other way round; h2: ReadAt first
+	ops = append(ops, c09Op("hsize", "h0"), c09Op("hread", "h0", "8"), c09Op("hreadat", "h0", "8", "0"),
+		c09Op("hread", "h1", "8"), c09Op("hsize", "h1"), c09Op("hreadat", "h1", "8", "0"),
+		c09Op("hreadat", "h2", "8", "1"), c09Op("hread", "h2", "8"))
 	ops = append(ops, c09Op("list", "any"), c09Op("list", "c"), c09Op("list", "i"))
 	return ops
 }
@@ -987,10 +989,17 @@ func c09Random(r *verifh.Rand, tr *verifh.T) verifh.Case {
 			o = c09Op("delete", "k9", "any")
 		case w < 104:
 			o = c09Op("openk", k, []string{"any", "any", "c"}[r.Intn(3)])
+			if r.Chance(1, 2) {
+				// a cursor inside the blob before anything else happens to the handle (if the open fails the
+				// read is on a handle that does not exist and is skipped)
+				ops = append(ops, o)
+				tr.Count("random_op_"+o[1], 1)
+				o = c09Op("hread", fmt.Sprintf("h%d", nh), "1")
+			}
 			nh++ // an upper bound: a failed open takes no handle number
-		case w < 108:
+		case w < 107:
 			o = c09Op("hread", fmt.Sprintf("h%d", r.Intn(nh+1)), fmt.Sprint(1+r.Intn(2)))
-		case w < 110:
+		case w < 109:
 			o = c09Op("hreadat", fmt.Sprintf("h%d", r.Intn(nh+1)), fmt.Sprint(1+r.Intn(3)), fmt.Sprint(r.Intn(3)))
 		case w < 111:
 			o = c09Op("hsize", fmt.Sprintf("h%d", r.Intn(nh+1)))
@@ -1108,6 +1117,15 @@ func c09Scripts() []c09Script {
 		{[]string{"mcap=4", "dcap=64", "buf=1"}, [][]string{ // a handle held across the (chunked) flush and the eviction from memory
 			c09Op("create", "k0", "3", "xa1a2a3"), c09Op("complete", "k0"), c09Op("openk", "k0", "any"),
 			c09Op("hread", "h0", "1"), c09Op("create", "k9", "4", "x"), c09Op("hread", "h0", "1"), c09Op("hsize", "h0"),
+		}},
+		{std, [][]string{ // partial sequential read, flush + eviction, then a POSITIONAL call (Size) is the first one to switch over
+			c09Op("create", "k0", "3", "xa1a2a3"), c09Op("complete", "k0"), c09Op("openk", "k0", "any"), c09Op("hread", "h0", "1"),
+			{"drain"}, c09Op("create", "k9", "4", "x"), c09Op("hsize", "h0"), c09Op("hread", "h0", "1"), c09Op("hread", "h0", "8"),
+		}},
+		{[]string{"mcap=4", "dcap=64", "buf=2"}, [][]string{ // … ReadAt first, two handles at different cursors
+			c09Op("create", "k0", "3", "xa1a2a3"), c09Op("complete", "k0"), c09Op("openk", "k0", "c"), c09Op("openk", "k0", "any"),
+			c09Op("hread", "h0", "2"), c09Op("hread", "h1", "1"), {"drain"}, c09Op("create", "k9", "4", "x"),
+			c09Op("hreadat", "h0", "2", "0"), c09Op("hread", "h0", "2"), c09Op("hread", "h1", "2"), c09Op("hsize", "h1"),
 		}},
 		{std, [][]string{ // metadata updates taken apart: the worker runs between ban, set and mark-dirty
 			c09Op("create", "k0", "1", "xa1"), c09Op("complete", "k0"), c09Op("setmd", "k0", "any", "m0", "x01", "@"),
